@@ -135,7 +135,7 @@ template <class Q, class Arg> struct Runner {
         // 1: every settable field of the object at its maximum sample; 2: alternating bit pattern
         int k = which == 1 ? 2 : 5;
         // apply all generated setters that fit this dynamic type
-#define API_PAIR(Q2, T2, N2, A2, R2) if (Q2* q2 = dynamic_cast<Q2*>(o)) { typedef decltype(setter_arg(&Q2::N2)) A_; if (nsamples<A_>() && Fam<A_>::scalar) { try { q2->N2(sample<A_>(k)); } catch (exception_base&) {} } }
+#define API_PAIR(Q2, T2, N2, A2, R2) if (Q2* q2 = dynamic_cast<Q2*>(o)) { typedef decltype(setter_arg(&Q2::N2)) A_; if (nsamples<A_>() && Fam<A_>::scalar) { try { q2->N2(sample<A_>(k)); } catch (std::exception& e_) { if (!mc::tins_exc(e_)) throw;} } }
 #include "api.inc"
 #undef API_PAIR
         return o;
@@ -151,7 +151,7 @@ template <class Q, class Arg> struct Runner {
             std::unique_ptr<PDU> t(prior(0));
             if (!t) { R.count("fields_uninstantiable"); return; }
             auto s0 = snapshot(*t);
-            try { (static_cast<Q&>(*t).*set)(probes[0]); } catch (exception_base&) {}
+            try { (static_cast<Q&>(*t).*set)(probes[0]); } catch (std::exception& e_) { if (!mc::tins_exc(e_)) throw;}
             auto s1 = snapshot(*t);
             bool optionlike = false;
             for (auto& kv : s0) if ((list_key(kv.first) || (kv.first.size() > 12 && kv.first.compare(kv.first.size() - 12, 12, ".header_size") == 0)) && s1[kv.first] != kv.second) optionlike = true;
@@ -175,7 +175,7 @@ template <class Q, class Arg> struct Runner {
                 if ((vi & 0x3ff) == 1) set_case(my, "C15", ctx + " value=" + show(v));
                 Mon::reset();
                 bool threw = false;
-                try { (q.*set)(v); } catch (exception_base&) { threw = true; }
+                try { (q.*set)(v); } catch (std::exception& e_) { if (!mc::tins_exc(e_)) throw; threw = true; }
                 R.count("evaluations");
                 std::string got;
                 try { got = getter_value(*o, k); } catch (exception_base& e) { got = std::string("!") + typeid(e).name(); }
@@ -203,7 +203,7 @@ template <class Q, class Arg> struct Runner {
                     const V& v = pv[pi];
                     std::unique_ptr<PDU> a(prior(pr)), b(prior(pr));
                     Q& qa = static_cast<Q&>(*a); Q& qb = static_cast<Q&>(*b);
-                    try { (qa.*set)(basev); (qb.*set)(v); } catch (exception_base&) { continue; }
+                    try { (qa.*set)(basev); (qb.*set)(v); } catch (std::exception& e_) { if (!mc::tins_exc(e_)) throw; continue; }
                     auto sa = snapshot(*a), sb = snapshot(*b);
                     for (auto& kv : sa) {
                         if (kv.first == k || aliased(kv.first, k) || always_derived_key(kv.first) || list_key(kv.first)) continue;
